@@ -7,11 +7,12 @@ root = Path(__file__).resolve().parents[1]
 props = [json.loads(l)["id"] for l in (root / "properties.jsonl").read_text().splitlines() if l.strip()]
 na_file = root / "meta" / "not_applicable.json"
 na = json.loads(na_file.read_text()) if na_file.exists() else {}
+integrated = set((root / "meta" / "integrated.txt").read_text().split())
 checks, not_app = [], []
 for pid in props:
     m = root / "meta" / f"{pid}.json"
     h = root / "harness" / "props" / f"{pid.lower()}.py"
-    if m.exists() and h.exists():
+    if m.exists() and h.exists() and pid in integrated:
         d = json.loads(m.read_text())
         checks.append({
             "property_id": pid,
